@@ -10,7 +10,7 @@ import (
 	"github.com/cep21/circuit/v4/vsched"
 )
 
-// diag (C11): collectors and the interrupt classifier are user code that may use the read-side diagnostics (Config,
+// diag (C11): collectors — run, fallback AND transition observers — and the interrupt classifier are user code that may use the read-side diagnostics (Config,
 // IsOpen, Name, gauges, Var) from INSIDE their callbacks — e.g. to tag a metric with a setting — while another
 // goroutine reconfigures the circuit or reads Var.  The only thing monitored here is liveness: the scheduler reports
 // a deadlock when no thread can run (a callback invoked while a library mutex is held that the diagnostic needs).
@@ -19,7 +19,7 @@ type diagScenario struct{}
 func init() { scenarios["diag"] = diagScenario{} }
 
 func (diagScenario) Config(r *rand.Rand, small bool) string {
-	return fmt.Sprintf("act=%c ctx=%c other=%c open=%d", "sfcbt"[r.Intn(5)], "bc"[r.Intn(2)], "svon"[r.Intn(4)], r.Intn(2)*r.Intn(2))
+	return fmt.Sprintf("act=%c ctx=%c other=%c open=%d", "sfcbt"[r.Intn(5)], "bc"[r.Intn(2)], "svonbb"[r.Intn(6)], r.Intn(2)*r.Intn(2))
 }
 
 type diagRec struct{ c **circuit.Circuit }
@@ -30,6 +30,12 @@ func (d diagRec) poke() {
 	_ = c.IsOpen()
 	_ = c.Name()
 	_ = c.ConcurrentCommands() + c.ConcurrentFallbacks()
+}
+func (d diagRec) Opened(context.Context, time.Time) { d.transition() }
+func (d diagRec) Closed(context.Context, time.Time) { d.transition() }
+func (d diagRec) transition() {
+	vsched.Yield("deliver-transition")
+	d.poke()
 }
 func (d diagRec) Success(context.Context, time.Time, time.Duration)       { d.poke() }
 func (d diagRec) ErrFailure(context.Context, time.Time, time.Duration)    { d.poke() }
@@ -46,7 +52,7 @@ func (diagScenario) Build(cfg string) ([]func(), func(*vsched.Sched) []string) {
 	conf := circuit.Config{
 		General:   circuit.GeneralConfig{TimeKeeper: circuit.TimeKeeper{Now: func() time.Time { now = now.Add(time.Millisecond); return now }}},
 		Execution: circuit.ExecutionConfig{Timeout: 5 * time.Millisecond, IsErrInterrupt: func(error) bool { _ = c.Config(); return true }},
-		Metrics:   circuit.MetricsCollectors{Run: []circuit.RunMetrics{rec}, Fallback: []circuit.FallbackMetrics{rec}},
+		Metrics:   circuit.MetricsCollectors{Run: []circuit.RunMetrics{rec}, Fallback: []circuit.FallbackMetrics{rec}, Circuit: []circuit.Metrics{rec}},
 	}
 	c = circuit.NewCircuitFromConfig("d", conf)
 	if cfgInt(cfg, "open") == 1 {
@@ -81,6 +87,9 @@ func (diagScenario) Build(cfg string) ([]func(), func(*vsched.Sched) []string) {
 		bodies = append(bodies, func() { _ = c.Var().String() })
 	case 'o':
 		bodies = append(bodies, func() { c.OpenCircuit(context.Background()); c.CloseCircuit(context.Background()) })
+	case 'b':
+		bodies = append(bodies, func() { c.OpenCircuit(context.Background()); c.CloseCircuit(context.Background()) })
+		bodies = append(bodies, func() { nc := c.Config(); nc.Execution.MaxConcurrentRequests = 3; c.SetConfigThreadSafe(nc) })
 	}
 	return bodies, func(*vsched.Sched) []string { return nil }
 }
